@@ -10,9 +10,9 @@ import (
 	"bytes"
 	"context"
 	"encoding/binary"
+	"fmt"
 	"io"
 	"net"
-	"fmt"
 	"sync"
 	"testing"
 	"time"
